@@ -34,7 +34,7 @@ RULE = ('cases: seeded model configurations (plain / grid / continuous world, wr
         'of different seeds of one configuration differ. Non-trivial: trajectory with >=20 random picks/shuffles whose digest was '
         'compared under >=8 perturbations; distinct by (configuration, seed).')
 ASSUMPTIONS = ['"for all seeds / hash seeds / process counts" is sampled', 'the fixture draws all of its own randomness from model.random']
-FLOORS = {'quick': {'batch_runs_open_signature_model': 8, 'digests_compared': 280, 'trajectories': 24, 'watched_calls': 20000, 'global_reseeds': 5000, 'interleaved_other_models': 500,
+FLOORS = {'quick': {'recycled_worlds_with_earlier_draws': 129, 'recycled_world_comparisons': 160, 'batch_runs_open_signature_model': 8, 'digests_compared': 280, 'trajectories': 24, 'watched_calls': 20000, 'global_reseeds': 5000, 'interleaved_other_models': 500,
                     'fresh_interpreter_digests': 96, 'batch_worker_digests': 72, 'distinct_seed_pairs_differ': 30, 'big_configurations': 2, 'seed_zero_trajectories': 6,
                     'hash_seeds_used': 4, 'reach:Core.Environment.get_random_agent': 14000, 'reach:Core.Environment.shuffle': 8600},
           'thorough': {'digests_compared': 6000, 'trajectories': 500, 'watched_calls': 400000}}
@@ -184,8 +184,73 @@ def case_cfg(ctx, case):
                     'digest_seed0': digests[0]['baseline'][:16]})
 
 
+def case_recycled(ctx, case):
+    """A world object that served a finished model A (random picks and shuffles included) is handed to a new model B with
+    world.set_model(B) + B.set_environment(world): from then on everything random in it is drawn from B's generator - the same draws as B
+    makes in a brand-new world - and A's generator is left alone."""
+    import ECAgent.Core as core
+    import ECAgent.Environments as envs
+    rng = ctx.rng('recycled', case['i'])
+    for rep_ in range(40):
+        seed_a, seed_b = rng.randint(0, 10 ** 6), rng.randint(0, 10 ** 6)
+        kind = rng.choice(['plain', 'grid', 'space'])
+
+        def world(model):
+            return model.environment if kind == 'plain' else (envs.GridWorld(model, 5, 4) if kind == 'grid' else envs.SpaceWorld(model, 6.0, 5.0))
+
+        def populate(model, env, n, prefix):
+            for j in range(n):
+                a = core.Agent(f'{prefix}{j}', model, tag=j % 3)
+                env.add_agent(a)
+
+        def draws(env, n):
+            out = []
+            for _ in range(n):
+                a = env.get_random_agent()
+                out.append(a.id if a is not None else None)
+                out.append([x.id for x in env.shuffle()])
+                out.append([x.id for x in env.shuffle(tag=1)])
+            return out
+
+        a_model = core.Model(seed=seed_a)
+        w = world(a_model)
+        if kind != 'plain':
+            a_model.set_environment(w)
+        populate(a_model, w, rng.randint(2, 6), 'a')
+        used = rng.random() < 0.85
+        if used:
+            draws(w, rng.randint(1, 4))
+        for aid in list(w.agents):
+            w.remove_agent(aid)
+        a_model.complete()
+        a_state = a_model.random.getstate()
+        b_model = core.Model(seed=seed_b)
+        w.set_model(b_model)
+        b_model.set_environment(w)
+        n_b, k = rng.randint(2, 7), rng.randint(2, 5)
+        populate(b_model, w, n_b, 'b')
+        got = draws(w, k)
+        twin = core.Model(seed=seed_b)
+        tw = world(twin)
+        if kind != 'plain':
+            twin.set_environment(tw)
+        populate(twin, tw, n_b, 'b')
+        exp = draws(tw, k)
+        ctx.ev()
+        ctx.count('recycled_world_comparisons')
+        if used:
+            ctx.count('recycled_worlds_with_earlier_draws')
+        if got != exp:
+            raise CaseViolation('a world handed over from a finished model to a new one (set_model + set_environment) does not draw from the '
+                                'new model\'s generator: same seed, different random picks than in a brand-new world', world=kind,
+                                seed=seed_b, recycled=got[:4], fresh=exp[:4])
+        if a_model.random.getstate() != a_state:
+            raise CaseViolation('random picks in a world that now belongs to model B advanced the generator of its former model A', world=kind)
+    ctx.distinct(('recycled', case['i']))
+
+
 def run_case(ctx, case):
-    case_cfg(ctx, case)
+    (case_recycled if case.get('kind') == 'recycled' else case_cfg)(ctx, case)
 
 
 def run(ctx):
@@ -195,6 +260,9 @@ def run(ctx):
     for i in range(N_BIG[ctx.tier]):
         if ctx.mine(i) and not ctx.full():
             ctx.run_case({'kind': 'cfg', 'i': i, 'big': True}, run_case)
+    for i in range(N_CFG[ctx.tier]):
+        if ctx.mine(i) and not ctx.full():
+            ctx.run_case({'kind': 'recycled', 'i': i}, run_case)
 
 
 def replay(ctx, case):
